@@ -36,7 +36,7 @@ Z = [3, 0, 0, 0, 0]
 def gen_seq_cases(ctx):
     rng = ctx.rng
     cases = []
-    n_per_kind = 120 if ctx.thorough else 36
+    n_per_kind = 120 if ctx.thorough else 27
     caps = [1, 2, 3, 4, 5, 7, 8, 9, 16]
 
     def one(kind, cap, pf, n_ops, style):
@@ -92,10 +92,10 @@ def gen_seq_cases(ctx):
         for j in range(n_per_kind):
             cap = caps[j % len(caps)] if kind in mu.BOUNDED else 0
             pf = j % 5
-            n = rng.choice([12, 20, 35, 60]) if j % 6 else 120
+            n = rng.choice([12, 20, 35, 60]) if j % 9 else 120
             cases.append(one(kind, cap, pf, n, rng.choice(["phases", "mixed"])))
     # segment boundaries: fill past 256 / 512 slots, drain across them, refill
-    for (a, b, c) in ([(300, 280, 300)] + ([(256, 256, 257), (600, 590, 40)] if True else [])):
+    for (a, b, c) in ([(300, 280, 300), (256, 256, 257)] + ([(600, 590, 40), (1030, 700, 300)] if ctx.thorough else [])):
         ops, nid = [], 1
         for _ in range(a):
             ops.append([0, nid, nid % 3, 0]); nid += 1
@@ -111,7 +111,7 @@ def gen_scenarios(ctx):
     t = 4 if ctx.thorough else 1
     scs = []
 
-    def add(name, kind, threads, cap=0, pf=0, prefill=(), pre=2, runs=350, rnd=120, drain=10, procs=0, scripts=None):
+    def add(name, kind, threads, cap=0, pf=0, prefill=(), pre=2, runs=260, rnd=100, drain=10, procs=0, scripts=None):
         scs.append(dict(Name=name, K=kind, C=cap, Eff=eff_cap(kind, cap), P=pf, Procs=procs, Prefill=list(prefill),
                         Threads=threads, MaxPreempt=pre, MaxRuns=runs * t, RandomRuns=rnd * t, Drain=drain,
                         Scripts=scripts or []))
@@ -126,7 +126,7 @@ def gen_scenarios(ctx):
         add(kind + "/2p-1c", kind, [[E(1, 1, 4)], [E(2, 2, 3)], [D, Z, D]], cap=cap, pf=pf, scripts=paused)
         # prefilled, a producer with two messages, one with one, consumer dequeues and reads Len
         add(kind + "/pre-3p-1c", kind, [[E(1, 1, 5), E(3, 1, 2)], [E(2, 2, 5)], [D, D, L, D]], cap=cap, pf=pf,
-            prefill=[E(9, 3, 5)], runs=450, rnd=200, drain=12)
+            prefill=[E(9, 3, 5)], runs=320, rnd=150, drain=12)
         if kind in mu.BOUNDED:
             # a full mailbox, producers racing one dequeue
             c1 = 1 if kind in ("bprio", "bstable") else 2
